@@ -115,8 +115,14 @@ def check(R):
         for (frm, to) in sorted(ca_edges):
             R.cut_from('P2', vu, to, 'accept an ICAC / RCAC', oks, 'cA == true', ca_t)
             R.cut_from('P2', vu, to, 'accept an ICAC / RCAC', oks, 'KeyUsage has keyCertSign', lambda: _bit_edges(F, vu, 'KEY_CERT_SIGN'))
-        pl_cmp = [c for c in prims.compare_sites(vu, ops=('Gt', 'Lt', 'Ge', 'Le')) if any(vu.local_name(l) == 'max_intermediates' for l in _locs(vu, c[3]) | _locs(vu, c[4]))]
-        okpl = len(pl_cmp) == 1 and pl_cmp[0][2] == 'Gt' and any(vu.local_name(l) == 'max_intermediates' for l in _locs(vu, pl_cmp[0][4]))
+        # the comparison of the chain position (self.depth, minus the leaf) with the certificate's pathLenConstraint (payload of
+        # basic_constraints()); both travel through one tuple pattern, so the sides are told apart by shape: `<..> - 1` on the left
+        import p7
+        both = lambda s_: any(f == 'depth:' + CV for f in src_fields(s_)) or 'cert::CertRef::basic_constraints' in src_calls(s_)
+        pl_cmp = [c for c in prims.compare_sites(vu, ops=('Gt', 'Lt', 'Ge', 'Le'))
+                  if both(prims.sources(vu, c[3])) and both(prims.sources(vu, c[4])) and 'basic_constraints' in ' '.join(src_calls(prims.sources(vu, c[3]) | prims.sources(vu, c[4])))
+                  and (p7.expr_key(vu, c[3]).startswith('Sub(') or p7.expr_key(vu, c[4]).startswith('Sub('))]
+        okpl = len(pl_cmp) == 1 and pl_cmp[0][2] == 'Gt' and p7.expr_key(vu, pl_cmp[0][3]).startswith('Sub(') and p7.expr_key(vu, pl_cmp[0][3]).rstrip('.0').endswith(',1)')
         R.expect('P10', vu.fn, 'path length: refuse when depth - 1 > pathLenConstraint', okpl, 'depth - 1 > max_intermediates', f'{[c[2] for c in pl_cmp]}')
         if pl_cmp:
             te, fe = prims.bool_local_edges(vu, pl_cmp[0][5])
